@@ -847,3 +847,27 @@ def _order(ctx, fx, f, n, inst):
         ctx.viol("R08.3", inst + ":order", v["msg"], fn=f["def"], site=f["loc"], trace=v["trace"])
     if not viols:
         ctx.ok("R08.3", inst + ":order", f["loc"], None)
+
+
+def check_no_live_eviction(ctx, fx, cfg, RULE):
+    """the registry is a strong holder of the services registered in it: an entry is overwritten only by the explicit
+    `replace` / removed by `unregister`, or — in `register` and spawn-on-demand — after it was found absent or stopped under
+    the same lock (shared with C05: a registered service nobody stopped keeps running). The four rule instances of this
+    module that say so are re-run and reported under the caller's rule id."""
+    import re
+    sub = core.Ctx(ctx.prop, ctx.tier, repo=ctx.repo, seed=ctx.seed)
+    sub._bodies = ctx._bodies
+    check_cfg(sub, fx, cfg)
+    want = re.compile(r"^(register|from_registry_and_spawn)@%s(:reuse-only-if-running)?$" % re.escape(cfg))
+    n = 0
+    for i in sub.instances:
+        if i["rule"] in ("R08.2", "R08.3") and want.match(i["instance"]):
+            n += 1
+            if i["ok"]:
+                ctx.ok(RULE, i["instance"], i.get("site"), i.get("detail"))
+    for v in sub.violations:
+        if v["rule"] in ("R08.2", "R08.3") and want.match(v["instance"]):
+            ctx.viol(RULE, v["instance"], v["msg"], fn=v.get("fn"), site=v.get("site"), trace=v.get("trace"))
+    ctx.floor(RULE, "registry eviction rules (%s)" % cfg, n, 3)
+    ctx.states += sub.states
+    ctx.transitions += sub.transitions
